@@ -125,20 +125,27 @@ func runSigStreams(out *vOut, maxLen int) {
 			abs[i] = fmt.Sprint(k)
 		}
 		res := types.NewTuple(types.NewParam(token.NoPos, pkg, "", tn))
-		sig := types.NewSignature(nil, types.NewTuple(vars...), res, false)
 		req := strings.TrimSpace("dupparam " + strings.Join(abs, " "))
-		_, reply := guarded(func() (string, string) {
-			_, errs := processFuncProvider(fset, types.NewFunc(token.NoPos, pkg, "F", sig))
-			if len(errs) == 0 {
-				return req, "ok"
-			}
-			msg := errs[0].Error()
-			if m := reDupArg.FindStringSubmatch(msg); m != nil {
-				return req, fmt.Sprintf("err dup:%d", strID[m[1]])
-			}
-			return req, "unparsed:" + msg
-		}, func() string { return req })
-		out.emit(req, reply)
+		// a trailing []T parameter is also written as a variadic ...T: the same input list, the same verdict
+		variants := []bool{false}
+		if n := len(prefix); n > 0 && prefix[n-1] == 1 {
+			variants = append(variants, true)
+		}
+		for _, variadic := range variants {
+			sig := types.NewSignature(nil, types.NewTuple(vars...), res, variadic)
+			_, reply := guarded(func() (string, string) {
+				_, errs := processFuncProvider(fset, types.NewFunc(token.NoPos, pkg, "F", sig))
+				if len(errs) == 0 {
+					return req, "ok"
+				}
+				msg := errs[0].Error()
+				if m := reDupArg.FindStringSubmatch(msg); m != nil {
+					return req, fmt.Sprintf("err dup:%d", strID[m[1]])
+				}
+				return req, "unparsed:" + msg
+			}, func() string { return req })
+			out.emit(req, reply)
+		}
 		if len(prefix) < 4 {
 			for k := 0; k < 3; k++ {
 				rec2(append(append([]int(nil), prefix...), k))
